@@ -157,7 +157,11 @@ frg::expected<format_error> printf_format(A agent, const char *s, va_struct *vsp
 		}else{
 			int w = 0;
 			while(*s >= '0' && *s <= '9') {
-				w = w * 10 + (*s - '0');
+				// Saturate instead of overflowing on absurdly long digit runs.
+				if(w > (__INT_MAX__ - (*s - '0')) / 10)
+					w = __INT_MAX__;
+				else
+					w = w * 10 + (*s - '0');
 				++s;
 				FRG_ASSERT(*s);
 			}
@@ -179,7 +183,10 @@ frg::expected<format_error> printf_format(A agent, const char *s, va_struct *vsp
 				int value = 0;
 				// If no integer follows the '.', then precision is taken to be zero
 				while(*s >= '0' && *s <= '9') {
-					value = value * 10 + (*s - '0');
+					if(value > (__INT_MAX__ - (*s - '0')) / 10)
+						value = __INT_MAX__;
+					else
+						value = value * 10 + (*s - '0');
 					++s;
 					FRG_ASSERT(*s);
 				}
